@@ -121,6 +121,14 @@ def _run(case, out, rig, server, cfg, variant, phone):
             return False
         return True
 
+    # the earlier attempts of the history may have been made with other per-login settings (the key-upload sequence logs in
+    # passively, then reconnects actively on the same stack; the application may rename itself between logins)
+    earlier = case.get("earlier") if case.get("prefix") else None
+    if earlier:
+        rig.top.passive = bool(earlier.get("passive"))
+        cfg.pushname = earlier.get("pushname")
+        out.label("settings_changed_between_logins")
+
     # ---- history prefix: attempts that are cut off
     for k, cut in enumerate(case.get("prefix", [])):
         nt = True
@@ -204,8 +212,11 @@ def _run(case, out, rig, server, cfg, variant, phone):
         # attempt has started (checked after the login under test)
 
     # ---- the login under test
+    if earlier:
+        rig.top.passive = bool(case.get("passive"))
+        cfg.pushname = case.get("pushname")
     stored_at_login = bytes(cfg.server_static_public.data) if cfg.server_static_public else None
-    server.corrupt_hello = bool(case.get("corrupt"))
+    server.corrupt_hello = case.get("corrupt") or False
     n_coalesced = case.get("coalesced", 0) if not case.get("corrupt") else 0
     config_writes_before = len(rig.config_writes)
     events_before = len(rig.top.events)
@@ -241,7 +252,7 @@ def _run(case, out, rig, server, cfg, variant, phone):
         rig.run()
     probs = rig.shuttle(chunker)
     if case.get("corrupt"):
-        out.label("corrupt_reply")
+        out.label("corrupt_reply", "corrupt=" + str(case["corrupt"]))
         # a reply that fails authentication must surface as a login failure, never hang
         if not quiescent_ok("corrupt"):
             return out
@@ -406,7 +417,9 @@ def case_strategy():
             "after_server": draw(st.integers(0, 4)),
             "after_client": draw(st.integers(0, 4)),
             "prefix": draw(st.lists(st.sampled_from(["before", "during", "during_partial", "after", "after_inside_delivery", "rejected_trailing"]), min_size=0, max_size=2)),
-            "corrupt": draw(st.sampled_from([False, False, False, False, True])),
+            "corrupt": draw(st.sampled_from([False] * 12 + [True, True] + DAMAGE)),
+            "earlier": draw(st.one_of(st.none(), st.fixed_dictionaries({"passive": st.booleans(),
+                                                                        "pushname": st.one_of(st.none(), st.text(min_size=1, max_size=12))}))),
             "real_profile": draw(st.sampled_from([False, False, True])),
             "too_large": draw(st.sampled_from([0, 0, 0, 0, 2 ** 24 - 16, 2 ** 24 - 15, 2 ** 24])),
             "choices": draw(st.lists(st.integers(0, 5), min_size=n, max_size=n)),
@@ -418,14 +431,25 @@ def case_strategy():
     return build()
 
 
+DAMAGE = ["ephemeral_flip", "ephemeral_short", "ephemeral_empty", "static_flip", "static_short", "static_empty", "payload_flip", "payload_short",
+          "payload_empty", "no_server_hello", "garbage"]
+
+
 def _enum_basic():
     for variant in ("XX", "IK", "IK_stale"):
         for chunks in ([], [1], [7, 40]):
             for prefix in ([], ["before"], ["during"], ["during_partial"], ["after"], ["after_inside_delivery"], ["rejected_trailing"]):
                 yield {"sub": "login", "variant": variant, "phone": "4915112345", "passive": variant == "XX", "pushname": None, "edge": None,
                        "chunks": chunks, "coalesced": 2, "after_server": 2, "after_client": 2, "prefix": prefix, "corrupt": False, "choices": []}
+        for prefix in (["after"], ["during"], ["rejected_trailing"]):
+            yield {"sub": "login", "variant": variant, "phone": "4915112345", "passive": False, "pushname": "second name", "edge": None,
+                   "chunks": [], "coalesced": 1, "after_server": 1, "after_client": 1, "prefix": prefix, "corrupt": False, "choices": [],
+                   "earlier": {"passive": True, "pushname": None}}
         yield {"sub": "login", "variant": variant, "phone": "12025550100", "passive": False, "pushname": "Zoë", "edge": "0802100118",
                "chunks": [3], "coalesced": 0, "after_server": 1, "after_client": 1, "prefix": [], "corrupt": True, "choices": []}
+        for how in DAMAGE:
+            yield {"sub": "login", "variant": variant, "phone": "12025550100", "passive": False, "pushname": None, "edge": None,
+                   "chunks": [], "coalesced": 0, "after_server": 1, "after_client": 1, "prefix": [], "corrupt": how, "choices": []}
         for size in (2 ** 24 - 16, 2 ** 24):
             yield {"sub": "login", "variant": variant, "phone": "4915112345", "passive": False, "pushname": None, "edge": None, "chunks": [],
                    "coalesced": 0, "after_server": 1, "after_client": 3, "prefix": [], "corrupt": False, "choices": [], "too_large": size}
